@@ -25,7 +25,7 @@ EXHAUSTIVE_SUBDOMAINS = []
 ASSUMPTIONS = ["pulse samples carry the amplitude plus a small share of the noise; low samples carry noise only", "regime R2 (noise between 0.2 x and 0.316 x the weakest pulse, i.e. 10-13.5 dB SNR) was the recorded finding eof-threshold-below-noise until fix b07124f; it is now judged as strictly as R1",
                "R1 = noise peak below the demodulator's own end-of-frame threshold (0.2 x strongest pulse of the frame)"]
 REQUIRED = ["r1_buffers", "r2_buffers", "second_buffer", "second_buffer_short_tail", "min_gap_after_short", "min_gap_after_long", "df17", "df20", "df21", "df4", "df5", "df11", "offset_even", "offset_odd",
-            "corrupted_df17_rejected", "pure_noise", "multi_frame", "sessions", "session_buffer_11_or_later"]
+            "corrupted_df17_rejected", "pure_noise", "multi_frame", "same_frame_twice_in_a_row", "sessions", "session_buffer_11_or_later"]
 
 
 def reader():
@@ -70,11 +70,19 @@ def build(rng, case):
         n = len(fr["hex"]) * 4
         A = fr["amp"]
         start = len(buf)
-        for s in ppm.modulate(x, n, A):
+        samples = ppm.modulate(x, n, A)
+        for bi_ in fr.get("weak", ()):
+            # a faded bit: both chips carry almost the same energy and the pair leans the WRONG way - the demodulator reads
+            # the inverted bit (an ordinary on-air bit error).  Such a frame is not "cleanly modulated": it is not expected
+            # back, but whatever comes back must never be a DF17 frame with a non-zero checksum
+            j_ = 16 + 2 * bi_
+            hi_first = samples[j_] > 0
+            samples[j_], samples[j_ + 1] = (A * 0.93, A) if hi_first else (A, A * 0.93)
+        for s in samples:
             nz = noise_sample(rng, fam, L, P)
             buf.append(s + (0.3 * nz if s > 0 else 0.0) if s > 0 else nz)
-        frames_info.append({"start": start, "n": n, "amp": A, "hex": fr["hex"], "valid": fr.get("valid", True)})
-        if fr.get("valid", True):
+        frames_info.append({"start": start, "n": n, "amp": A, "hex": fr["hex"], "valid": fr.get("valid", True) and not fr.get("weak")})
+        if fr.get("valid", True) and not fr.get("weak"):
             exp.append(fr["hex"].upper())
         noise(fr["gap"])
     noise(case["tail"])
@@ -131,18 +139,17 @@ def m_buffer(ctx, case):
             return
     if any(not f["valid"] for f in info):
         ctx.hit("corrupted_df17_rejected")
+    if any(a["hex"] == b["hex"] and a["valid"] and b["valid"] for a, b in zip(info, info[1:])):
+        ctx.hit("same_frame_twice_in_a_row")
     if regime == "noise":
         ctx.nontrivial(("b", case["bseed"], "noise"))
         return
     if got != exp:
+        missing = [e for e in exp if e not in got]
+        extra = [g for g in got if g not in exp]
+        key = "frame-lost" if missing and not extra else "frame-corrupted-or-spurious" if extra else "frames-reordered-or-duplicated"
         if regime == "R2":
-            # known finding only when every missing frame is followed by noise above its end-of-frame threshold
-            key = "eof-threshold-below-noise" if set(got) <= set(exp) and case["P"] >= 0.2 * min(f["amp"] for f in info) * 0.999 \
-                else "frames-wrong-in-R2"
-        else:
-            missing = [e for e in exp if e not in got]
-            extra = [g for g in got if g not in exp]
-            key = "frame-lost" if missing and not extra else "frame-corrupted-or-spurious" if extra else "frames-reordered-or-duplicated"
+            key += "-at-10-to-14dB-snr"     # the regime of the former finding eof-threshold-below-noise (fixed in b07124f)
         ctx.violation(key, expected=exp, observed=got, **short)
         return
     for f in info:
@@ -271,8 +278,14 @@ def mkcase(rng, regime, nframes=None, force_df=None):
             hx = "%028X" % x
             valid = False
         own = 2 * n   # samples of this frame: "separated by at least one frame length of noise" = at least its own length
-        frames.append({"hex": hx, "amp": amps[k], "gap": rng.choice((own, own + 1, own + 2, 240, 300, 500, rng.randint(own, 900))) + rng.randrange(2),
-                       "valid": valid})
+        fr_ = {"hex": hx, "amp": amps[k], "gap": rng.choice((own, own + 1, own + 2, 240, 300, 500, rng.randint(own, 900))) + rng.randrange(2),
+               "valid": valid}
+        if valid and n == 112 and int(hx[:2], 16) >> 3 == 17 and regime == "R1" and rng.random() < 0.15:
+            fr_["weak"] = sorted(rng.sample(range(5, 112), rng.choice((1, 1, 2))))     # a DF17 frame with one or two faded bits
+        frames.append(fr_)
+        if valid and not fr_.get("weak") and rng.random() < 0.12:
+            # the same reply transmitted again right away (a transponder answering two interrogators): both copies count
+            frames.append(dict(fr_, amp=rng.choice((amps[k], rng.uniform(amin, 1.4))), gap=rng.choice((own, own + 2, 240, 400, rng.randint(own, 700)))))
     c = {"fam": fam, "L": L, "P": P, "lead": rng.choice((200, 201, 333, 400, rng.randint(200, 700))), "tail": 600 + rng.randrange(0, 300),
          "frames": frames, "regime": regime, "bseed": rng.getrandbits(40)}
     if frames and rng.random() < 0.25:
